@@ -557,6 +557,28 @@ func c10upload(ev *evid.Rec) func(rt *rapid.T) {
 			if d := sameItems(onDisk, all); d != "" {
 				rt.Fatalf("folder upload: resulting tree differs from the streamed tree: %s (pre-seeded: %v, earlier upload cut: %v at %d)", d, seed, wasCut, cutAt)
 			}
+			if preserve {
+				// what the server keeps of an item that was sent whole with three forks: the resource fork as it was sent, and an
+				// information fork that is one
+				for i, u := range items {
+					if u.IsDir || u.Rsrc == nil || i >= len(tr.Actions) || tr.Actions[i] != "send" {
+						continue
+					}
+					var ps []string
+					for _, x := range u.Path {
+						ps = append(ps, string(x))
+					}
+					dir, name := filepath.Join(dst, filepath.Join(ps[:len(ps)-1]...)), ps[len(ps)-1]
+					if rb, err := os.ReadFile(filepath.Join(dir, ".rsrc_"+name)); err != nil || !bytes.Equal(rb, u.Rsrc) {
+						rt.Fatalf("folder upload with PreserveResourceForks: item %q was sent with a resource fork of %d bytes, the server keeps %d bytes that are not that fork (%v)", strings.Join(ps, "/"), len(u.Rsrc), len(rb), err)
+					}
+					if ib, err := os.ReadFile(filepath.Join(dir, ".info_"+name)); err == nil {
+						if _, derr := hlref.DecodeInfoFork(ib); derr != nil {
+							rt.Fatalf("folder upload with PreserveResourceForks: what the server keeps as the information fork of %q (%d bytes) is not one: %v", strings.Join(ps, "/"), len(ib), derr)
+						}
+					}
+				}
+			}
 			// round trip: download what was uploaded (files with stored forks are outside the property's quantifier: skipped
 			// when the server kept a resource fork for some item)
 			storedFork := false
